@@ -93,18 +93,37 @@ def store_diff(before, Node, limit=5):
     return out
 
 
+def _postorder(n, make):
+    """Iterative post-order with memo; tolerant of shared nodes (DAGs) and cycles, which broken code can produce."""
+    vals, onpath = {}, set()
+    stack = [(n, False)]
+    while stack:
+        x, done = stack.pop()
+        if done:
+            vals[id(x)] = make(x, [vals.get(id(c), _CYCLE) for c in x.children])
+            onpath.discard(id(x))
+            continue
+        if id(x) in vals or id(x) in onpath:
+            continue
+        onpath.add(id(x))
+        stack.append((x, True))
+        for c in reversed(x.children):
+            if id(c) not in vals and id(c) not in onpath:
+                stack.append((c, False))
+    return vals[id(n)]
+
+
+_CYCLE = (None, "<cycle>", None, None, None, (), (), (), ())
+
+
 def value(n, with_id=False):
     """Nested value of a subtree for structural comparison (ids optional)."""
-    # iterative post-order to stay clear of the recursion limit
-    order = walk(n)
-    vals = {}
-    for x in reversed(order):
-        kids = tuple(vals[id(c)] for c in x.children)
-        vals[id(x)] = ((x.id if with_id else None), x.name, x.content, x.tail, x.prefix,
-                       tuple(sorted(x.attributes.items(), key=repr)),
-                       tuple(sorted(x.extras.items(), key=repr)),
-                       tuple(sorted(x.nsmap.items(), key=repr)), kids)
-    return vals[id(n)]
+    def make(x, kids):
+        return ((x.id if with_id else None), x.name, x.content, x.tail, x.prefix,
+                tuple(sorted(x.attributes.items(), key=repr)),
+                tuple(sorted(x.extras.items(), key=repr)),
+                tuple(sorted(x.nsmap.items(), key=repr)), tuple(kids))
+    return _postorder(n, make)
 
 
 def difference_field(a, b):
@@ -140,13 +159,11 @@ def first_value_difference(a, b, path="/"):
 
 def to_plain(n):
     """JSON-able description of a tree (for witnesses); rebuilt by from_plain."""
-    order = walk(n)
-    vals = {}
-    for x in reversed(order):
-        vals[id(x)] = {"name": x.name, "id": x.id, "content": x.content, "tail": x.tail, "prefix": x.prefix,
-                       "attributes": dict(x.attributes), "extras": dict(x.extras), "nsmap": dict(x.nsmap),
-                       "children": [vals[id(c)] for c in x.children]}
-    return vals[id(n)]
+    def make(x, kids):
+        return {"name": x.name, "id": x.id, "content": x.content, "tail": x.tail, "prefix": x.prefix,
+                "attributes": dict(x.attributes), "extras": dict(x.extras), "nsmap": dict(x.nsmap),
+                "children": [k if isinstance(k, dict) else {"name": "<cycle>"} for k in kids]}
+    return _postorder(n, make)
 
 
 def from_plain(Node, d, fresh_ids=True, parent=None):
